@@ -23,3 +23,30 @@ Proof.
   - simpl in Hd. discriminate.
   - unfold tsv_desc_ok in Hd. apply andb_true_iff in Hd as [_ Hw]. rewrite (strip_id _ Hw). reflexivity.
 Qed.
+
+(* ------------------------------------------------------------------ the unit class stub (C05-F4) *)
+
+(* repaired writer: whatever the entry holds, a row written without its properties is read back as a
+   bare name, and once the loader has tagged it with the library it has exactly the shape
+   HedSchemaUnitClassSection._check_if_duplicate accepts as a placeholder of the standard class *)
+Lemma tsv_stub_row_fixed strip_lib n a d library :
+  endswith s_dash_hash n = false ->
+  exists a',
+    tsv_read_row (tsv_write_entry_row true strip_lib false n a d) = Ok (n, a', None)
+    /\ unit_class_stub (tag_with_library library a') = true.
+Proof.
+  intro H. exists []. unfold tsv_write_entry_row, tsv_read_row.
+  cbn [r_hed_id r_name r_attributes r_description]. rewrite H. split; reflexivity.
+Qed.
+
+(* the unrepaired writer ignored include_props: a standard class with an attribute is not a stub *)
+Lemma tsv_stub_row_unfixed_refuted :
+  exists n a library,
+    attr_ok a = true /\ endswith s_dash_hash n = false /\
+    exists a', tsv_read_row (tsv_write_entry_row false true false n a None) = Ok (n, a', None)
+               /\ unit_class_stub (tag_with_library library a') = false.
+Proof.
+  exists [116%N], [([100%N], AStr [115%N])], [115%N].
+  split; [reflexivity|]. split; [reflexivity|].
+  eexists. split; vm_compute; reflexivity.
+Qed.
